@@ -24,6 +24,12 @@ def run(ctx):
     b = vlib.build(DRIVER)
     n = 400 if q else 4000
     bs = ctx.tlc_sim('MVCC_MC', 'MVCC_Gen.cfg', num=n, depth=9)
+    # exhaustive leg: every history of 5 operations over 2 keys / 3 versions, under several key pairings
+    allb = ctx.tlc_genall('MVCC_All', 'MVCC_All.cfg')
+    for salt in range(1, 3 if q else 9):
+        ctx.replay(b, allb, opts=dict(db='mem', salt=salt), par=8, count=(salt == 1))
+    ctx.exhaustive = False  # exhaustive over the abstract histories of the small config, sampled concretisation
+    ctx.extra['exhaustive_small_config'] = dict(cfg='MVCC_All.cfg', behaviours=len(allb))
     for db in ('mem', 'leveldb'):
         ctx.replay(b, bs if db == 'mem' else bs[:len(bs) // 4], opts=dict(db=db), par=8, count=(db == 'mem'))
     if not q:
